@@ -291,19 +291,40 @@ def prepare(check):
     if getattr(check, "_prepared", False):
         return
     check.setup_worker()
+    import signal
+
+    class _WarmupTimeout(BaseException):
+        pass
+
+    def _stop(signum, frame):
+        raise _WarmupTimeout()
+    old_handler = signal.signal(signal.SIGVTALRM, _stop)
     try:
         for i in range(3):
-            run_trace(check, check.gen(random.Random(777 + i), "quick", i))
-    except KeyboardInterrupt:
-        raise
-    except BaseException:  # noqa: BLE001 - warm-up is best effort
-        pass
+            # bounded in CPU time: a system under test that loops forever
+            # must not hang the worker before the first (forked, bounded) run
+            signal.setitimer(signal.ITIMER_VIRTUAL, 30.0)
+            try:
+                run_trace(check, check.gen(random.Random(777 + i), "quick",
+                                           i))
+            except KeyboardInterrupt:
+                raise
+            except BaseException:  # noqa: BLE001 - warm-up is best effort
+                pass
+            finally:
+                signal.setitimer(signal.ITIMER_VIRTUAL, 0)
+    finally:
+        signal.signal(signal.SIGVTALRM, old_handler)
     check._prepared = True
 
 
-def _worker_init(check):
-    global _CHECK
+_STOP = None
+
+
+def _worker_init(check, stop_event=None):
+    global _CHECK, _STOP
     _CHECK = check
+    _STOP = stop_event
     faulthandler.enable()
     sys.stdout = _NullOut()      # the SUT prints; only the parent reports
     prepare(check)
@@ -422,6 +443,8 @@ def _run_batch(args):
     faulthandler.dump_traceback_later(600, exit=True)
     try:
         for idx in indices:
+            if _STOP is not None and _STOP.is_set():
+                break               # the parent saw a non-terminating run
             seed = run_seed(base_seed, check.pid, idx)
             st, rec = _in_fork(lambda: _one_run(check, base_seed, tier, idx,
                                                 recheck_every))
@@ -626,9 +649,10 @@ def _explore(check, script_file, args):
                samples=[], rechecked=0, harness=[], viol=[], skipped=0)
     ctx = multiprocessing.get_context("fork")
     deadline = t0 + cfg["budget"]
+    stop_event = ctx.Event()
     with ProcessPoolExecutor(max_workers=workers, mp_context=ctx,
                              initializer=_worker_init,
-                             initargs=(check,)) as ex:
+                             initargs=(check, stop_event)) as ex:
         pending = {}
         it = iter(batches)
 
@@ -647,14 +671,21 @@ def _explore(check, script_file, args):
         while pending:
             done = next(as_completed(list(pending)))
             pending.pop(done)
+            if done.cancelled():
+                agg["skipped"] += 1
+                continue
             try:
                 recs = done.result()
             except Exception as exc:  # noqa: BLE001 - dead worker etc.
                 raise HarnessError(f"worker failed: {exc!r}") from exc
             for rec in recs:
                 _absorb(agg, rec)
+            if agg.get("stop") and not stop_event.is_set():
+                stop_event.set()
+                for fut in list(pending):
+                    fut.cancel()
             submit_more()
-        agg["skipped"] = sum(len(b) for b in it)
+        agg["skipped"] += sum(len(b) for b in it)
 
     wall_explore = time.monotonic() - t0
     if agg["harness"]:
